@@ -123,4 +123,60 @@ def buildWith (sortFn : List Utxo → List Utxo) (k : Keeper) (exp : Nat) (actio
 
 def build := buildWith sortDesc
 
+
+/-! ### the balance part of `validation.ValidateTx` (protocol/validation/tx.go: checkDoubleSpend,
+    the `*bc.Mux` case of checkValid up to setGas) -/
+
+inductive MuxErr
+  | doubleSpend
+  | overflow
+  | noSource
+  | unbalanced
+  | gasNegative
+deriving DecidableEq, Repr
+
+def minInt64 : Int := -9223372036854775808
+
+/-- `parity[asset] += amount` with the 2^63 check and checked.AddInt64 -/
+def addSrc (p : Nat → Option Int) (s : Nat × Nat) : Except MuxErr (Nat → Option Int) :=
+  if s.2 > maxInt64 then .error .overflow
+  else
+    let cur := (p s.1).getD 0
+    if cur + (s.2 : Int) > (maxInt64 : Int) then .error .overflow
+    else .ok (fun a => if a = s.1 then some (cur + (s.2 : Int)) else p a)
+
+/-- `parity[asset] -= amount`: the asset must have a source -/
+def subDst (p : Nat → Option Int) (d : Nat × Nat) : Except MuxErr (Nat → Option Int) :=
+  match p d.1 with
+  | none => .error .noSource
+  | some sum =>
+    if d.2 > maxInt64 then .error .overflow
+    else if sum - (d.2 : Int) < minInt64 then .error .overflow
+    else .ok (fun a => if a = d.1 then some (sum - (d.2 : Int)) else p a)
+
+def foldE {σ α : Type} (f : σ → α → Except MuxErr σ) : List α → σ → Except MuxErr σ
+  | [], s => .ok s
+  | x :: rest, s => match f s x with
+    | .ok s' => foldE f rest s'
+    | .error e => .error e
+
+/-- result: the BTM value handed to `setGas` -/
+def muxCheck (inIds : List Nat) (srcs dsts : List (Nat × Nat)) : Except MuxErr Int :=
+  if !(distinctIds inIds) then .error .doubleSpend
+  else match foldE addSrc srcs (fun _ => none) with
+    | .error e => .error e
+    | .ok p1 => match foldE subDst dsts p1 with
+      | .error e => .error e
+      | .ok p2 =>
+        if (srcs.map (·.1)).any (fun a => a != btm && p2 a != some 0) then .error .unbalanced
+        else match p2 btm with
+          | some v => if v < 0 then .error .gasNegative else .ok v
+          | none => .ok 0
+where distinctIds : List Nat → Bool
+  | [] => true
+  | x :: rest => !rest.contains x && distinctIds rest
+
+def tplCheck (t : Tpl) : Except MuxErr Int :=
+  muxCheck (t.ins.map (·.id)) (t.ins.map fun u => (u.asset, u.amount)) (t.outs.map fun o => (o.asset, o.amount))
+
 end BytomModel.Model.Builder
